@@ -7,7 +7,8 @@
      remaining bytes, nothing only at end of file (util::ReadCompressed::Read on
      an intact plain or compressed input -- C15).  Every fragmentation of the
      stream is such a source.  WHang (fuel) never occurs. *)
-From PP Require Import Warc.WarcDefs Warc.WarcProofs Compress.CompressProofs.
+From PP Require Import Warc.WarcDefs Warc.WarcProofs Compress.CompressProofs Warc.ParallelDefs Warc.ParallelProofs.
+From Coq Require Import Permutation.
 Local Open Scope Z_scope.
 
 (* All record sequences (header lines of any number, CRLF or LF line ends, any
@@ -122,3 +123,36 @@ Theorem C17_never_hangs :
       end.
 Proof. exact never_hangs_proof. Qed.
 Print Assumptions C17_never_hangs.
+
+(* ---- warc_parallel (Warc/ParallelDefs.v): readers, the shared queue, j workers
+   with an identity child, emission of whole records under the mutex; schedules are
+   arbitrary action lists.  Assumptions: the queue delivers each item once in FIFO
+   order (C16), the mutex makes one `*out << record` atomic; the collector's
+   re-framing of the child's output is exact by C17_records_exact; with -z each
+   emitted item is GZCompress(record) = one gzip member for it (C15_gzcompress_roundtrip). *)
+Theorem C17_parallel_exactly_once :
+  forall (inputs : list (list rec)) (jobs : nat) (sched : list action),
+    pdone (prun (pinit inputs jobs) sched) ->
+    Permutation (p_out (prun (pinit inputs jobs) sched)) (concat inputs) /\
+    pbytes (prun (pinit inputs jobs) sched) = concat (p_out (prun (pinit inputs jobs) sched)).
+Proof. exact parallel_exactly_once. Qed.
+Print Assumptions C17_parallel_exactly_once.
+
+Theorem C17_parallel_never_invents :
+  forall (inputs : list (list rec)) (jobs : nat) (sched : list action),
+    exists rest, Permutation (p_out (prun (pinit inputs jobs) sched) ++ rest) (concat inputs).
+Proof. exact parallel_never_invents. Qed.
+Print Assumptions C17_parallel_never_invents.
+
+Theorem C17_parallel_single_worker_keeps_order :
+  forall (input : list rec) (sched : list action),
+    pdone (prun (pinit [input] 1) sched) -> p_out (prun (pinit [input] 1) sched) = input.
+Proof. exact parallel_single_worker_keeps_order. Qed.
+Print Assumptions C17_parallel_single_worker_keeps_order.
+
+Example C17_nonvacuous_parallel :
+  let a := [1]%Z in let b := [2; 2]%Z in let c := [3]%Z in
+  let s := prun (pinit [[a; b]; [c]] 2)
+                [ARead 0; ARead 1; AFeed 1; ARead 0; AFeed 0; AFeed 1; AEmit 0; AEmit 1; AEmit 1; AEmit 7] in
+  p_out s = [c; a; b] /\ p_queue s = [] /\ p_flight s = [[]; []] /\ p_inputs s = [[]; []].
+Proof. vm_compute. repeat split. Qed.
